@@ -1138,6 +1138,46 @@ struct StepObs {
     poisoned: bool,
 }
 
+/// C10: what a refused request may not touch — the node as fingerprint_full sees it and every entry of the store
+struct Snap {
+    fp: Vec<(String, String)>,
+    store: Vec<(String, u64, String)>,
+    fee: VelocityControl,
+}
+fn snap(world: &World, node: &Arc<Node>) -> Snap {
+    Snap { fp: fingerprint_full(node), store: store_dump(&world.persister), fee: node.get_state().fee_velocity_control.clone() }
+}
+/// the time-only part of VelocityControl::insert: a refused insert leaves the buckets rotated to `now`,
+/// which is the same control seen at a later time, not a change
+fn rotated(c: &VelocityControl, now: u64) -> VelocityControl {
+    let mut r = c.clone();
+    let len = r.buckets.len();
+    let nshift = (((now.saturating_sub(r.start_sec)) / r.bucket_interval as u64) as usize).min(len);
+    r.buckets.truncate(len - nshift);
+    for _ in 0..nshift {
+        r.buckets.insert(0, 0);
+    }
+    r.start_sec = now - now % r.bucket_interval as u64;
+    r
+}
+fn same_control(a: &VelocityControl, b: &VelocityControl) -> bool {
+    a.start_sec == b.start_sec && a.bucket_interval == b.bucket_interval && a.buckets == b.buckets && a.limit == b.limit
+}
+/// differences a refused request left behind ("C10: ..."), None when there are none
+fn c10_diff(world: &World, node: &Arc<Node>, before: &Snap, now: u64, what: &str) -> Option<String> {
+    let after = snap(world, node);
+    let mut d = fingerprint_diff(&before.fp, &after.fp);
+    if same_control(&after.fee, &rotated(&before.fee, now)) {
+        d.retain(|x| x != "fee_velocity differs");
+    }
+    d.extend(store_diff(&before.store, &after.store));
+    if d.is_empty() {
+        None
+    } else {
+        Some(format!("C10: refused {} changed: {}", what, d.join("; ")))
+    }
+}
+
 fn fee_control(node: &Arc<Node>) -> VelocityControl {
     node.get_state().fee_velocity_control.clone()
 }
@@ -1156,6 +1196,10 @@ fn node_step(b: &Built, node: &Arc<Node>, values: &[u64], now: u64, answer: bool
         let shadow = b.world.restart(&node.get_id());
         fingerprint_diff(&fingerprint(node), &fingerprint(&shadow))
     };
+    // C10 is stated for the default filter (a downgraded tag lets a request carry on past its refusal)
+    let c10_on = b.pol.rules.is_empty();
+    let mut c10: Vec<String> = vec![];
+    let s1 = if c10_on { Some(snap(&b.world, node)) } else { None };
     let r1 = catch_unwind(AssertUnwindSafe(|| node.check_onchain_tx(&b.tx, &b.flags, &prev_outs, &b.ucks, &b.opaths)));
     let (code1, idx1) = match &r1 {
         Err(_) => (1u64, vec![]),
@@ -1163,6 +1207,11 @@ fn node_step(b: &Built, node: &Arc<Node>, values: &[u64], now: u64, answer: bool
         Ok(Err(ve)) => err_obs(ve),
     };
     let poisoned = r1.is_err();
+    if let (Some(s1), Ok(Err(_))) = (&s1, &r1) {
+        stats.c10_checked += 1;
+        c10.extend(c10_diff(&b.world, node, s1, now, &format!("Node::check_onchain_tx (code {})", code1)));
+    }
+    let s2 = if c10_on && !poisoned { Some(snap(&b.world, node)) } else { None };
     let c1 = if poisoned { c0.clone() } else { fee_control(node) };
     let approver = RecordingApprover { answer, asked: Mutex::new(vec![]) };
     let r2 = catch_unwind(AssertUnwindSafe(|| approver.handle_proposed_onchain(node, &b.tx, &b.flags, &prev_outs, &b.ucks, &b.opaths)));
@@ -1173,6 +1222,10 @@ fn node_step(b: &Built, node: &Arc<Node>, values: &[u64], now: u64, answer: bool
         Ok(Err(_)) => 2,
     };
     let asked = approver.asked.lock().unwrap().clone();
+    if let (Some(s2), true) = (&s2, matches!(r2, Ok(Err(_)) | Ok(Ok(false)))) {
+        stats.c10_checked += 1;
+        c10.extend(c10_diff(&b.world, node, s2, now, &format!("Approve::handle_proposed_onchain (code {})", hcode)));
+    }
     let c2 = if poisoned || r2.is_err() { c1.clone() } else { fee_control(node) };
     let asked_coq = match asked.first() {
         Some(ix) => format!("(Some {})", coq_nlist(&ix.iter().map(|i| *i as u64).collect::<Vec<_>>())),
@@ -1249,7 +1302,14 @@ fn node_step(b: &Built, node: &Arc<Node>, values: &[u64], now: u64, answer: bool
     let mut signed = Value::Null;
     if hcode == 0 && !poisoned && b.malformed.is_empty() && b.ins.iter().all(|i| i.signable) {
         let ipaths: Vec<DerivationPath> = b.ins.iter().map(|i| i.ipath.clone()).collect();
+        let s3 = if c10_on { Some(snap(&b.world, node)) } else { None };
         let r = catch_unwind(AssertUnwindSafe(|| node.unchecked_sign_onchain_tx(&b.tx, &ipaths, &prev_outs, b.ucks.clone())));
+        if let (Some(s3), Ok(Err(e))) = (&s3, &r) {
+            stats.c10_checked += 1;
+            stats.c10_sign_refusals_funding += b.outs.iter().any(funds_channel) as u64;
+            c10.extend(c10_diff(&b.world, node, s3, now, &format!("Node::unchecked_sign_onchain_tx after an accepted check ({:?})", e.message())));
+        }
+        monitor.extend(c10.drain(..));
         match r {
             Ok(Ok(wit)) => {
                 stats.signed += 1;
@@ -1290,6 +1350,7 @@ fn node_step(b: &Built, node: &Arc<Node>, values: &[u64], now: u64, answer: bool
         }
     }
 
+    monitor.extend(c10.drain(..));
     let coq = format!(
         "(({}, {}, {}), ({}, {}, {}, {}), (({}, {}), {}, ({}, {}), {}))",
         profile_name(),
@@ -1330,6 +1391,8 @@ struct Stats {
     sign_refused: u64,
     sign_panicked: u64,
     restarts: u64,
+    c10_checked: u64,
+    c10_sign_refusals_funding: u64,
     allowlist_ops: u64,
     monitor_failures: u64,
     malformed: u64,
@@ -1595,7 +1658,8 @@ fn node_domain(args: &Args) {
         }
         let all_mon: Vec<String> = steps.iter().flat_map(|s| s.monitor.clone()).collect();
         let c11: Vec<String> = all_mon.iter().filter(|m| m.starts_with("C11:")).cloned().collect();
-        let mut monitor: Vec<String> = all_mon.into_iter().filter(|m| !m.starts_with("C11:")).collect();
+        let c10: Vec<String> = all_mon.iter().filter(|m| m.starts_with("C10:")).cloned().collect();
+        let mut monitor: Vec<String> = all_mon.into_iter().filter(|m| !m.starts_with("C11:") && !m.starts_with("C10:")).collect();
         if b.pol.vel_kind != 2 && !ref_warned(&b.pol.rules, TAGS[9]) {
             if let Some((t0, len, sum)) = window_violation(&log, b.pol.vel_limit, ivl, nb) {
                 monitor.push(format!("accepted non-beneficial values in the window [{}, {}+{}) sum to {} msat, above the fee velocity limit {}", t0, t0, len, sum, b.pol.vel_limit));
@@ -1623,7 +1687,8 @@ fn node_domain(args: &Args) {
                "accepted_steps_with_channels": stats.accepted_with_channels,
                "accepted_steps_with_two_or_more_channels": stats.accepted_with_two_or_more_channels,
                "signed": stats.signed, "sign_refused": stats.sign_refused, "sign_panicked": stats.sign_panicked,
-               "restarts": stats.restarts, "allowlist_operations": stats.allowlist_ops, "malformed_cases": stats.malformed, "monitor_failures": stats.monitor_failures}),
+               "restarts": stats.restarts, "c10_refused_requests_checked": stats.c10_checked,
+               "c10_signing_refusals_on_funding_transactions": stats.c10_sign_refusals_funding, "allowlist_operations": stats.allowlist_ops, "malformed_cases": stats.malformed, "monitor_failures": stats.monitor_failures}),
     );
 }
 
